@@ -566,6 +566,16 @@ def r5_skeleton(R, unit: FUnit) -> None:
     ok = len(ev) == 1 and len(prevs) == 1 and len(curs) == 1 and prevs[0].id in dom[ev[0].id] and ev[0].id in dom[curs[0].id] and text(prevs[0].ast.value) == 'current_check' \
         and text(curs[0].ast.value) == 'solved_values(convergence_variables, index)'
     R.check(ok, C, 'prev-eval-cur', 'previous saved before, current re-read after the evaluation, both at column index', 'order of save / evaluate / re-read differs', where='template')
+    # the starting point of the first comparison is read after the seeding copy (as in the Python solver: C02.R2)
+    copies = [n for n in cfg.nodes if n.kind == 'stmt' and isinstance(n.ast, ast.Assign) and isinstance(n.ast.targets[0], (ast.Subscript, ast.Call))
+              and 'offset_location' in text(n.ast.value) and text(n.ast.targets[0]).startswith('solved_values')]
+    first_reads = [n for n in cfg.nodes if n.kind == 'stmt' and isinstance(n.ast, ast.Assign) and lp.id not in n.loops
+                   and text(n.ast.value).replace(' ', '') == 'solved_values(convergence_variables,index)']
+    if R.expect(C, len(copies), 1, 'offset copy in the Fortran solve_t') and R.expect(C, len(first_reads), 1, 'first read of the check values before the pass loop'):
+        R.check(not any(cfg.reaches(r_.id, c_.id) for r_ in first_reads for c_ in copies), C, 'first-read-after-offset-copy',
+                'the check values are first read after the values were seeded from the offset period',
+                'the check values are read before the copy from the offset period: the first convergence test compares against values the period held before seeding '
+                '(the Python solver reads them after the copy)', where=f'template line {first_reads[0].lineno}')
     # converged -> exit; count after exhaustion
     tb = [b for (b, lab) in ct.succ if lab == 'T']
     reach = set()
